@@ -7,7 +7,10 @@ from .common import Batch, Result, canon_json, rng_for
 
 DEFAULT = ("{mother} -> {daughters}", "({mother} -> {daughters})")
 VALID = [DEFAULT, ("{mother} --> {daughters}", "[{mother} --> {daughters}]"),
-         ("{daughters} <- {mother} {mother}", "<{{{mother}}}:{daughters}>")]
+         ("{daughters} <- {mother} {mother}", "<{{{mother}}}:{daughters}>"),
+         # formats that share one of their two patterns with the default
+         ("{mother} -> {daughters}", "[{mother} -> {daughters}]"),
+         ("{mother} => {daughters}", "({mother} -> {daughters})")]
 INVALID = [("{mother} -> ", "({mother} -> {daughters})"),            # lacks daughters (first pattern)
            ("{mother} -> {daughters}", "({daughters})"),             # lacks mother (second pattern)
            ("{mother} -> {daughters} {x}", "({mother} -> {daughters})"),   # another named placeholder
@@ -52,8 +55,10 @@ def run(ctx):
     batch = Batch(ctx["driver_ok"])
     exh_len = 4 if tier == "quick" else 5
     n_random = 3000 if tier == "quick" else 40000
-    pool_create = [VALID[0], VALID[1], INVALID[3], INVALID[0]]
-    pool_set = [VALID[0], VALID[1], VALID[2], INVALID[2]]
+    pool_create = [VALID[0], VALID[3], INVALID[3], INVALID[0]]
+    pool_set = [VALID[0], VALID[1], VALID[3], INVALID[2]]
+    wide_create = [VALID[0], VALID[1], VALID[3], VALID[4], INVALID[3], INVALID[0]]
+    wide_set = [VALID[0], VALID[1], VALID[2], VALID[3], VALID[4], INVALID[2]]
 
     def cfg():
         c = DescriptorFormat.config
@@ -162,8 +167,9 @@ def run(ctx):
         created = [o[1] for o in ops if o[0] == "create"]
         return op[1] < len(created) and created[op[1]] in VALID
 
-    def successors(ops):
+    def successors(ops, wide=False):
         """all well-nested continuations by one operation"""
+        pc, ps = (wide_create, wide_set) if wide else (pool_create, pool_set)
         n_obj = sum(1 for o in ops if o[0] == "create")
         created = [o[1] for o in ops if o[0] == "create"]
         stack = []
@@ -174,11 +180,11 @@ def run(ctx):
                 stack.pop()
         out = []
         if n_obj < 3:
-            out += [("create", p) for p in pool_create]
+            out += [("create", p) for p in pc]
         out += [("enter", i) for i in range(n_obj)]
         if stack:
             out += [("leave",), ("leave_exc",)]
-        out += [("set", p) for p in pool_set]
+        out += [("set", p) for p in ps]
         out.append(("render",))
         return out
 
@@ -204,7 +210,7 @@ def run(ctx):
     for _ in range(n_random):
         ops = []
         for _ in range(rng.randint(5, 14)):
-            succ = successors(ops)
+            succ = successors(ops, wide=True)
             # favour enter / leave so that nesting gets deep
             weights = [3 if s[0] in ("enter", "leave", "leave_exc") else 1 for s in succ]
             ops.append(rng.choices(succ, weights)[0])
